@@ -22,16 +22,20 @@ def gen_hier(rng, n=None, mode=None):
     """classes E0..E(n-1) in definition order; bases[i] ⊆ earlier classes with one common root (Pony's diamond rule)"""
     n = n or rng.choice([2, 3, 4, 4, 5, 5, 6, 6])
     bases = [[]]; root = [0]
-    for i in range(1, n):
+    if n >= 4 and rng.random() < 0.35:
+        # a proper diamond first: two sibling branches under one root and a class inheriting from both
+        bases = [[], [0], [0], rng.choice([[1, 2], [2, 1]])]; root = [0, 0, 0, 0]
+    def sub(j, i): return j == i or any(sub(b, i) for b in bases[j])
+    for i in range(len(bases), n):
         if i >= 3 and rng.random() < 0.12:
             bases.append([]); root.append(i); continue          # a second, unrelated hierarchy
         b = rng.randrange(0, i)
         bs = [b]
         same = [j for j in range(i) if root[j] == root[b] and j != b]
-        if same and rng.random() < 0.35:
-            b2 = rng.choice(same)
-            # Python's MRO refuses `class X(Base, Sub)`: keep the more specific class first
-            bs = [b, b2]
+        branch = [j for j in same if not sub(j, b) and not sub(b, j)]          # another branch: a real diamond
+        if same and rng.random() < 0.4:
+            b2 = rng.choice(branch) if branch and rng.random() < 0.8 else rng.choice(same)
+            bs = [b, b2]            # (hierarchies CPython's MRO refuses are skipped by the caller)
         bases.append(bs); root.append(root[b])
     mode = mode or rng.choice(['default', 'default', 'str', 'int', 'mixed', 'strcol'])
     return {'n': n, 'bases': bases, 'root': root, 'mode': mode, 'vals': discr_values(rng, n, root, mode)}
@@ -271,6 +275,37 @@ class Checker:
         r = self.h['root'][c]
         return [pk for (rt, pk), i in self.w.cls.items() if rt == r and is_sub(self.h, i, c)]
 
+    def relation(self, c, s):
+        """how class s stands to the iterated entity c"""
+        h = self.h
+        if h['root'][c] != h['root'][s]: return 'other-root'
+        if c == s: return 'same'
+        if is_sub(h, c, s): return 'ancestor'
+        if is_sub(h, s, c): return 'descendant'
+        if any(is_sub(h, r, c) and is_sub(h, r, s) for r in range(h['n'])): return 'sibling-sharing-subclass'
+        return 'unrelated-same-root'
+
+    def isinstance_query(self, c, classes, neg, form, bare_single=True):
+        """`[not] isinstance(x, classes)` over entity c as a string / generator / lambda query; oracle: Python isinstance over the extent of c"""
+        h, E, w = self.h, self.E, self.w
+        root = h['root'][c]; k = len(classes)
+        env = {'C': E[c], 'select': select}; env.update({'S%d' % i: E[s] for i, s in enumerate(classes)})
+        ci = 'S0' if k == 1 and bare_single else '(%s)' % ''.join('S%d, ' % i for i in range(k))
+        cond = '%sisinstance(x, %s)' % ('not ' if neg else '', ci)
+        if form == 'string': q = select('x for x in C if ' + cond, env)
+        elif form == 'generator': q = eval('select(x for x in C if %s)' % cond, env)
+        else: q = eval('C.select(lambda x: %s)' % cond, env)
+        objs = q[:]
+        cls_t = tuple(E[s] for s in classes)
+        exp = [pk for pk in self.extent(c) if isinstance_py(h, w.cls[(root, pk)], classes) != neg]
+        det = [self.name(c), [self.name(s) for s in classes], neg, form]
+        for s in classes: self.ctx.count('isinstance-class:' + self.relation(c, s))
+        if self.check_set('isinstance', objs, root, exp, det):
+            # Python isinstance on the exact-typed objects agrees, too
+            bad = [o.id for o in select('x for x in C', {'C': E[c]}) if (isinstance(o, cls_t) != neg) != (o.id in set(exp))]
+            if bad: self.fail('isinstance', 'isinstance on the loaded objects disagrees with the stored classes', det, bad, [])
+        return ('isinstance', c, classes, neg, q)
+
     # ---- steps (each runs inside the caller's db_session)
     def step(self, rng, kind):
         """one access path; an exception of the real code on a path where the object exists is a failure of the property, not of the harness"""
@@ -278,6 +313,14 @@ class Checker:
             return self._step(rng, kind)
         except Exception as e:
             self.fail(kind, 'reaching a stored object through %s raised %s' % (kind, type(e).__name__), str(e)[:200], 'raised ' + type(e).__name__, 'the stored object(s)')
+            self.broken = True
+            return None
+
+    def step_call(self, f):
+        try:
+            return f()
+        except Exception as e:
+            self.fail('isinstance', 'an isinstance query raised %s' % type(e).__name__, str(e)[:200], 'raised ' + type(e).__name__, 'the selected objects')
             self.broken = True
             return None
 
@@ -352,23 +395,9 @@ class Checker:
                 exp = sorted({pk for v in w.holders.values() for pk in v['many']})
             self.check_set(kind, objs, 0, exp, [])
         elif kind == 'isinstance':
-            c = rng.randrange(n); root = h['root'][c]
-            k = rng.choice([1, 1, 2, 3])
-            classes = [rng.randrange(n) for _ in range(k)]
-            neg = rng.random() < 0.25
-            env = {'C': E[c]}; env.update({'S%d' % i: E[s] for i, s in enumerate(classes)})
-            ci = 'S0' if k == 1 and rng.random() < 0.6 else '(%s)' % ''.join('S%d, ' % i for i in range(k))
-            src = 'x for x in C if %sisinstance(x, %s)' % ('not ' if neg else '', ci)
-            q = select(src, env)
-            objs = q[:]
-            cls_t = tuple(E[s] for s in classes)
-            exp = [pk for pk in self.extent(c) if isinstance_py(h, w.cls[(root, pk)], classes) != neg]
-            det = [self.name(c), [self.name(s) for s in classes], neg]
-            if self.check_set('isinstance', objs, root, exp, det):
-                # Python isinstance on the exact-typed objects agrees, too
-                bad = [o.id for o in select('x for x in C', {'C': E[c]}) if (isinstance(o, cls_t) != neg) != (o.id in set(exp))]
-                if bad: self.fail('isinstance', 'isinstance on the loaded objects disagrees with the stored classes', det, bad, [])
-            return ('isinstance', c, classes, neg, q)
+            c = rng.randrange(n)
+            classes = [rng.randrange(n) for _ in range(rng.choice([1, 1, 2, 3]))]
+            return self.isinstance_query(c, classes, rng.random() < 0.25, rng.choice(['string', 'generator', 'lambda']), rng.random() < 0.6)
         else:
             raise ValueError(kind)
 
@@ -401,16 +430,46 @@ def one_world(ctx, h, reqs, checks):
                 for _ in range(rng.choice([1, 2, 3, 5, 8])):
                     if ck.broken: break
                     r = ck.step(rng, rng.choice(STEPS))
-                    if r and not r[3]:          # the AST tie is done on the un-negated form
-                        _, c, classes, neg, q = r
-                        cond = isinstance_cond(q, cmap)
-                        same = [x for x in range(h['n']) if h['root'][x] == h['root'][c]]
-                        reqs.append({'op': 'isinstance', 'bases': h['bases'], 'discr': code, 'entity': c, 'classes': classes, 'sameRoot': same})
-                        rows_py = [isinstance_py(h, r2, classes) for r2 in range(h['n'])]
-                        checks.append(('isinstance', [h['bases'], c, classes], {'cond': cond, 'python': rows_py, 'extent': [is_sub(h, r2, c) for r2 in range(h['n'])]}))
+                    register_isinstance(h, code, cmap, r, reqs, checks)
+        isinstance_sweep(ctx, h, db, E, H, w, code, cmap, reqs, checks)
         refine_tie(ctx, h, db, E, code, w, reqs, checks)
     finally:
         db.disconnect()
+
+
+def register_isinstance(h, code, cmap, r, reqs, checks):
+    """AST tie of one isinstance query (done on the un-negated form)"""
+    if not r or r[3]: return
+    _, c, classes, neg, q = r
+    cond = isinstance_cond(q, cmap)
+    same = [x for x in range(h['n']) if h['root'][x] == h['root'][c]]
+    reqs.append({'op': 'isinstance', 'bases': h['bases'], 'discr': code, 'entity': c, 'classes': classes, 'sameRoot': same})
+    rows_py = [isinstance_py(h, r2, classes) for r2 in range(h['n'])]
+    checks.append(('isinstance', [h['bases'], c, classes], {'cond': cond, 'python': rows_py, 'extent': [is_sub(h, r2, c) for r2 in range(h['n'])]}))
+
+
+def isinstance_sweep(ctx, h, db, E, H, w, code, cmap, reqs, checks):
+    """every iterated entity x every class of the model (ancestors, descendants, SIBLING branches of a diamond, the other hierarchy), plain and
+    negated, plus tuples mixing related and unrelated classes, rotating through string / generator / lambda queries"""
+    rng = ctx.rng
+    n = h['n']; forms = ['string', 'generator', 'lambda']
+    ck = Checker(ctx, h, db, E, H, w); ck.trace.append('isinstance-sweep')
+    k = 0
+    with db_session:
+        for c in range(n):
+            for s in range(n):
+                for neg in (False, True):
+                    if ck.broken: return
+                    k += 1
+                    r = ck.step_call(lambda: ck.isinstance_query(c, [s], neg, forms[k % 3], bare_single=(k % 2 == 0)))
+                    register_isinstance(h, code, cmap, r, reqs, checks)
+            others = [s for s in range(n) if ck.relation(c, s) in ('sibling-sharing-subclass', 'unrelated-same-root', 'other-root')]
+            for _ in range(3):
+                classes = [rng.randrange(n) for _ in range(rng.choice([2, 2, 3]))]
+                if others: classes[rng.randrange(len(classes))] = rng.choice(others)       # at least one class that is not on c's line
+                k += 1
+                r = ck.step_call(lambda: ck.isinstance_query(c, classes, rng.random() < 0.3, forms[k % 3]))
+                register_isinstance(h, code, cmap, r, reqs, checks)
 
 
 def witnesses(ctx):
